@@ -6,7 +6,8 @@
 From stdpp Require Import gmap sets list.
 From Coq Require Import NArith.
 From SV Require Import SM.IndexModel SM.IndexProofs SM.IndexSearchProofs SM.IndexShapes SM.IndexShapeProofs
-  SM.IndexUniqueProofs SM.IndexCopySetProofs.
+  SM.IndexUniqueProofs SM.IndexCopySetProofs SM.IndexMaint SM.IndexMaintProofs SM.IndexEquivProofs
+  SM.IndexRemove SM.IndexRemoveProofs SM.IndexDel SM.IndexDelProofs SM.IndexListOps SM.IndexListOpsProofs SM.IndexClear SM.IndexClearProofs.
 
 Section C07.
   Variable fold : str → str.
@@ -74,6 +75,74 @@ Section C07.
     by apply set_item_inv.
   Qed.
 
+  (** Entity.__setitem__ as written, whole function (round 3): the lookup loop of shape [sh] followed by the
+      maintenance program [p] read off the source (the `if key_fold == 'classname' ... elif ...` chain with the
+      worldspawn guard; `self['classname'] = 'worldspawn'` on its error path is a recursive call of the same
+      function, modelled with an explicit depth).  When every path through [p] executes the actions the four named
+      obligations ask for, the function is the model's [set_item] for all arguments and states — in particular the
+      rejected re-class of the worldspawn leaves it listed under 'worldspawn' — and keeps the invariant. *)
+  Theorem c07_setitem_maintenance_as_written : ∀ sh p d e key v st,
+    setitem_shape_ok sh = true → maint_ok p = true →
+    set_item_pg fold sh p (S (S d)) e key v st = set_item fold e key v st ∧
+    (Inv fold st → Inv fold (set_item_pg fold sh p (S (S d)) e key v st).1).
+  Proof.
+    intros sh p d e key v st Hsh Hp. rewrite (set_item_pg_ok fold fold_cn fold_ws sh p d e key v st Hsh Hp).
+    split; [done|]. by apply set_item_inv.
+  Qed.
+
+  (** VMF.add_ents as written (round 3): a program over an argument that may be a one-shot iterable.  When every
+      entity is listed once and indexed once in both indexes — whether or not the argument can be iterated a
+      second time — the function is the model's [add_ents] for every argument, and keeps the invariant. *)
+  Theorem c07_add_ents_as_written : ∀ p es oneshot st, ae_ok p = true →
+    ae_run fold p es oneshot st = add_ents fold es st ∧ (Inv fold st → Inv fold (ae_run fold p es oneshot st)).
+  Proof.
+    intros p es oneshot st Hp. rewrite (ae_run_ok fold p es oneshot st Hp). split; [done|]. by apply add_ents_inv.
+  Qed.
+
+  (** Entity.__delitem__ with a single key, as written (round 3): the statements before the lookup loop as a
+      maintenance program [p] (the by_target update of the targetname branch, whose removal key is the entity's
+      current targetname, and the refusal to delete the classname, in either order) and the loop that pops the stored
+      key as a shape [dl], both read off the source.  When every path through [p] executes what the three named
+      obligations ask for and the loop is case-insensitive and pops the stored spelling, the function is the model's
+      [del_item] for all arguments and states, and keeps the invariant.  ([del self[k1, k2, ...]], pop, popitem and
+      clear go through this function: [del_items], [pop_item], [pop_first], [clear] of the model.) *)
+  Theorem c07_delitem_as_written : ∀ p dl e key st,
+    del_maint_ok p = true → del_loop_ok dl = true →
+    del_item_pg fold p dl e key st = del_item fold e key st ∧
+    (Inv fold st → Inv fold (del_item_pg fold p dl e key st).1).
+  Proof.
+    intros p dl e key st Hp Hdl. rewrite (del_item_pg_ok fold p dl e key st Hp Hdl). split; [done|].
+    by apply del_item_inv.
+  Qed.
+
+  (** Entity.clear as written (round 3): a straight-line list of steps read off the source.  When the classname is reset
+      through __setitem__ and the targetname deleted through __delitem__ before the key dict is emptied directly, and
+      the classname is stored back afterwards, the function is the model's [clear] for every entity and state (the
+      only assumption: 'nodeid'.casefold() is neither 'classname' nor 'targetname'), and keeps the invariant. *)
+  Theorem c07_clear_as_written : fold nodeid ≠ cn ∧ fold nodeid ≠ tn → ∀ l e st, clear_ok l = true →
+    clear_pg fold l e st = clear fold e st ∧ (Inv fold st → Inv fold (clear_pg fold l e st).1).
+  Proof.
+    intros Hn l e st Hl. rewrite (clear_pg_ok fold Hn l e st Hl). split; [done|]. by apply clear_inv.
+  Qed.
+
+  (** VMF.remove_ent and VMF.add_ent as written (round 3): little programs over the entity list and the two indexes
+      whose conditions are evaluated where they stand (the membership test of remove_ent after the list removal).
+      A remove_ent program that passes its three path obligations — the worldspawn stays indexed, an entity that is
+      still listed (it was added more than once) stays indexed, any other entity leaves the list and both indexes —
+      is the model's [remove_ent]; an add_ent program that appends the item and adds it to each index exactly once
+      is the model's [add_ent] (for an entity object of this map that is not the worldspawn: the modelled domain).
+      Both keep the invariant. *)
+  Theorem c07_remove_ent_as_written : ∀ p e st, remove_ok p = true →
+    v_run fold p e st = remove_ent fold e st ∧ (Inv fold st → Inv fold (v_run fold p e st)).
+  Proof.
+    intros p e st Hp. rewrite (remove_ent_pg_ok fold p e st Hp). split; [done|]. by apply remove_ent_inv.
+  Qed.
+  Theorem c07_add_ent_as_written : ∀ p e st, add_ok p = true → e ≠ spawn st → e < nobj st →
+    v_run fold p e st = add_ent fold e st ∧ (Inv fold st → Inv fold (v_run fold p e st)).
+  Proof.
+    intros p e st Hp Hs Hn. rewrite (add_ent_pg_ok fold p e st Hp Hs Hn). split; [done|]. by apply add_ent_inv.
+  Qed.
+
   (** VMF.search as written: any program for the two branches that passes the shape obligations — over the real
       defaultdict semantics, where reading a missing key inserts an empty set and `name in index` sees such keys —
       returns exactly [search_spec], and the state it leaves cannot be told from the one before by any reader. *)
@@ -97,6 +166,20 @@ Section C07.
     Proof. exact (free_name_some fold). Qed.
     Theorem c07_make_unique_terminates : ∀ e p st, (make_unique fold e p st).2 = 0.
     Proof. exact (make_unique_terminates fold fold_app_dec fold_tn). Qed.
+
+    (** Every operation respects [ix_equiv] (round 3): two states that differ only in empty sets held by the index
+        maps — what defaultdict reads, iteration and make_unique's own lookups leave behind in the implementation
+        and the model does not track — give equivalent states and the same error code, step after step.  (For
+        make_unique the fuel of the model's loop differs between the two states; the name found does not.) *)
+    Theorem c07_step_respects_ix_equiv : ∀ o st st', ix_equiv st st' →
+      ix_equiv (step fold o st).1 (step fold o st').1 ∧ (step fold o st).2 = (step fold o st').2.
+    Proof. exact (step_resp fold fold_app_dec). Qed.
+    Theorem c07_run_respects_ix_equiv : ∀ ops st st', ix_equiv st st' →
+      ix_equiv (run fold ops st) (run fold ops st') ∧ (Inv fold st → Inv fold (run fold ops st')).
+    Proof.
+      intros ops st st' H. pose proof (run_resp fold fold_app_dec ops st st' H) as H'. split; [done|].
+      intros HI. eapply ix_equiv_inv; [|exact H']. by apply run_inv.
+    Qed.
   End unique.
 
   (** *** Iterating an index while mutating it (CopySet.__iter__, shape read off the source): a generator that
@@ -154,6 +237,96 @@ Theorem c07_search_elif_refuted :
   Inv ascii_fold st_probe ∧ search_spec ascii_fold [97]%N st_probe 1 ∧ 1 ∉ (search_sh ascii_fold search_shape_elif [97]%N st_probe).1 ∧
   Inv ascii_fold st_named ∧ search_spec ascii_fold [97]%N st_named 1 ∧ 1 ∉ (search_sh ascii_fold search_shape_elif [97]%N st_named).1.
 Proof. exact search_elif_refuted. Qed.
+
+(** Round 3: today's maintenance program and add_ents pass their obligations; the shapes of seeded faults c07_3
+    (rejected re-class of the worldspawn reverted by a direct store: ValueError is raised, the keyvalue is back,
+    the worldspawn is gone from by_class) and c07_4 (add_ents iterates its argument twice: with a generator the
+    entity is listed but not indexed) fail theirs and break the invariant on reachable states. *)
+Example c07_maintenance_today_ok : maint_ok maint_today = true ∧ ae_ok add_ents_today = true.
+Proof. split; reflexivity. Qed.
+Theorem c07_setitem_guard_direct_revert_refuted :
+  maint_guard_error_ok maint_direct_revert = false ∧
+  maint_classname_ok maint_direct_revert = true ∧ maint_targetname_ok maint_direct_revert = true ∧
+  maint_other_ok maint_direct_revert = true ∧
+  let r := set_item_pg ascii_fold setitem_shape_today maint_direct_revert 2 0 cn [97]%N init in
+  r.2 = 2 ∧ keys_of r.1 0 = [(cn, ws)] ∧ ¬ Inv ascii_fold r.1.
+Proof. exact maint_direct_revert_refuted. Qed.
+Theorem c07_add_ents_iterated_twice_refuted :
+  ae_ok_reiterable add_ents_twice = true ∧ ae_ok_oneshot add_ents_twice = false ∧
+  let st0 := run ascii_fold [NewEnt [(cn, [97]%N)]] init in
+  Inv ascii_fold st0 ∧ ents (ae_run ascii_fold add_ents_twice [1] true st0) = [1] ∧
+  ¬ Inv ascii_fold (ae_run ascii_fold add_ents_twice [1] true st0).
+Proof. exact add_ents_twice_refuted. Qed.
+
+(** _remove_copyset as written (round 3): every shape of the helper that passes the four named obligations (the set is
+    found without raising and a missing set means nothing to do; the entity is discarded, not removed; the other
+    members stay; a set that became empty is dropped) is the model's [ix_remove] — the function every removal of the
+    model and of the generated maintenance program goes through — for every mapping, key and entity, and never raises.
+    Without the fourth obligation the only difference is an empty set left under the key: the same sets for every
+    reader ([ix_get]), which is what [ix_equiv] ignores.  The other shapes are refuted by computed witnesses:
+    [set.remove] raises KeyError, an inverted emptiness test loses the remaining members, no `is not None` guard raises
+    on an absent key. *)
+Theorem c07_remove_copyset_as_written : ∀ sh,
+  rc_ok sh = true →
+  (∀ k e (m : gmap str (gset nat)), rc_run sh k e m = (ix_remove k e m, 0)) ∧
+  (∀ k e (m : gmap (option str) (gset nat)), rc_run sh k e m = (ix_remove k e m, 0)).
+Proof. intros sh Hok. split; intros; by apply rc_run_ok. Qed.
+Theorem c07_remove_copyset_leaving_empty_sets_reader_equal : ∀ sh,
+  rc_reader_ok sh = true →
+  ∀ k e (m : gmap (option str) (gset nat)),
+    (rc_run sh k e m).2 = 0 ∧ ∀ k', ix_get (rc_run sh k e m).1 k' = ix_get (ix_remove k e m) k'.
+Proof. intros sh Hok k e m. by apply rc_run_reader_ok. Qed.
+Example c07_remove_copyset_today_ok : rc_ok rc_today = true.
+Proof. exact rc_today_ok. Qed.
+Theorem c07_remove_copyset_variants_refuted :
+  let m1 : gmap nat (gset nat) := {[ 7 := {[1; 2]} ]} in
+  (rc_discards rc_strict_remove = false ∧ (rc_run rc_strict_remove 7 3 m1).2 = 1 ∧ (ix_remove 7 3 m1) = m1) ∧
+  (rc_keeps_others rc_drop_inverted = false ∧ ix_get (rc_run rc_drop_inverted 7 1 m1).1 7 = ∅ ∧ ix_get (ix_remove 7 1 m1) 7 = {[2]}) ∧
+  (rc_lookup_ok rc_no_none_guard = false ∧ (rc_run rc_no_none_guard 8 1 m1).2 = 9) ∧
+  (rc_drops_empty rc_never_drops = false ∧ rc_reader_ok rc_never_drops = true ∧
+   (rc_run rc_never_drops 7 1 {[ 7 := {[1]} ]}).1 = ({[ 7 := ∅ ]} : gmap nat (gset nat)) ∧
+   ix_remove 7 1 ({[ 7 := {[1]} ]} : gmap nat (gset nat)) = ∅).
+Proof. exact rc_refutations. Qed.
+
+(** Round 3: today's __delitem__, remove_ent and add_ent programs pass their obligations; refuted variants: a
+    by_target[None] addition in __delitem__ without the membership test (an entity that is not in the map ends up in
+    by_target[None]), a pop by the caller's spelling (KeyError for a key stored in another letter case), the
+    membership test of remove_ent placed before the list removal (the entity leaves the list but stays indexed), the
+    guard of remove_ent written with `and` (removing the worldspawn takes it out of by_class). *)
+Example c07_delitem_listops_today_ok :
+  del_maint_ok del_maint_today = true ∧ del_loop_ok del_loop_today = true ∧
+  remove_ok remove_ent_today = true ∧ add_ok add_ent_today = true.
+Proof. repeat split; reflexivity. Qed.
+Theorem c07_delitem_variants_refuted :
+  (del_targetname_ok del_maint_unguarded = false ∧ del_classname_refused del_maint_unguarded = true ∧
+   del_other_ok del_maint_unguarded = true ∧
+   let st0 := run ascii_fold [NewEnt [(cn, [97]%N); (tn, [120]%N)]] init in
+   let r := del_item_pg ascii_fold del_maint_unguarded del_loop_today 1 tn st0 in
+   Inv ascii_fold st0 ∧ r.2 = 0 ∧ ents r.1 = [] ∧ ¬ Inv ascii_fold r.1) ∧
+  (del_loop_pops_stored del_loop_pop_caller = false ∧
+   delitem_loop ascii_fold del_loop_pop_caller [84;110]%N [([116;78]%N, [120]%N)] = ([([116;78]%N, [120]%N)], 1) ∧
+   delitem_loop ascii_fold del_loop_today [84;110]%N [([116;78]%N, [120]%N)] = ([], 0)).
+Proof. exact del_refutations. Qed.
+Theorem c07_remove_ent_variants_refuted :
+  (remove_unlists_and_unindexes remove_ent_test_first = false ∧
+   let st0 := run ascii_fold [CreateEnt [97]%N []] init in
+   let st1 := v_run ascii_fold remove_ent_test_first 1 st0 in
+   Inv ascii_fold st0 ∧ ents st1 = [] ∧ ¬ Inv ascii_fold st1) ∧
+  (remove_worldspawn_stays_indexed remove_ent_and_guard = false ∧
+   remove_still_listed_stays_indexed remove_ent_and_guard = false ∧
+   ¬ Inv ascii_fold (v_run ascii_fold remove_ent_and_guard 0 init)).
+Proof. exact listops_refutations. Qed.
+
+(** Entity.clear: today's step list passes; without `del self['targetname']` before the dict is emptied the entity
+    keeps its old name in by_target (computed witness on a reachable state). *)
+Example c07_clear_today_ok : clear_ok clear_today = true ∧ (ascii_fold nodeid ≠ cn ∧ ascii_fold nodeid ≠ tn).
+Proof. split; [reflexivity|split; by vm_compute]. Qed.
+Theorem c07_clear_forgets_targetname_refuted :
+  clear_reindexes_before_emptying clear_forgets_targetname = false ∧ clear_keeps_the_classname clear_forgets_targetname = true ∧
+  let st0 := run ascii_fold [CreateEnt [97]%N [(tn, [120]%N)]] init in
+  let r := clear_pg ascii_fold clear_forgets_targetname 1 st0 in
+  Inv ascii_fold st0 ∧ r.2 = 0 ∧ keys_of r.1 1 = [(cn, inull)] ∧ ¬ Inv ascii_fold r.1.
+Proof. exact clear_forgets_targetname_refuted. Qed.
 
 (** The hypotheses are satisfiable: ASCII lower-casing. *)
 Example c07_ascii_fold_ok :
